@@ -156,6 +156,7 @@ func checkC18(c *Ctx) {
 	r.Trusted = []string{"database/sql, sqlx, pgx: Commit/Rollback semantics; a failed Commit releases the transaction", "package-level error variables are non-nil", "go/types, go/ssa"}
 
 	perAdapter := map[string]map[string]bool{}
+	txWrappers := map[*ssa.Function]bool{}
 	total := 0
 	for _, rel := range []string{"server/db/mysql", "server/db/postgres"} {
 		perAdapter[rel] = map[string]bool{}
@@ -169,12 +170,38 @@ func checkC18(c *Ctx) {
 			}
 			r.Func(fk(fn))
 			top := core.TopFunc(fn)
-			perAdapter[rel][top.Name()] = true
+			isWrapper := false
+			for _, p := range fn.Params {
+				if isFuncType(p.Type()) {
+					isWrapper = true // run-in-transaction helper: its callers are the transactional operations
+				}
+			}
+			if isWrapper {
+				txWrappers[fn] = true
+			} else {
+				perAdapter[rel][top.Name()] = true
+			}
 			for _, b := range begins {
 				total++
 				r.CallSites++
 				c.checkTxBracket(b)
 			}
+		}
+	}
+	// operations that run their statements through a run-in-transaction helper
+	for _, rel := range []string{"server/db/mysql", "server/db/postgres"} {
+		for _, fn := range c.P.ModFuncs {
+			if !core.InPkg(fn, rel) || txWrappers[fn] {
+				continue
+			}
+			core.AllInstrs(fn, func(in ssa.Instruction) {
+				if ci, ok := in.(ssa.CallInstruction); ok {
+					if sc := ci.Common().StaticCallee(); sc != nil && txWrappers[sc] {
+						perAdapter[rel][core.TopFunc(fn).Name()] = true
+						r.Func(fk(fn))
+					}
+				}
+			})
 		}
 	}
 	r.Floor("C18.1-tx-bracket", 40)
